@@ -258,7 +258,10 @@ func unmarshalStatus(id uint32, data []byte) error {
 	if sid != id {
 		return &unexpectedIDErr{id, sid}
 	}
-	code, data := unmarshalUint32(data)
+	code, data, err := unmarshalUint32Safe(data)
+	if err != nil {
+		return err
+	}
 	msg, data, _ := unmarshalStringSafe(data)
 	lang, _, _ := unmarshalStringSafe(data)
 	return &StatusError{
@@ -266,6 +269,19 @@ func unmarshalStatus(id uint32, data []byte) error {
 		msg:  msg,
 		lang: lang,
 	}
+}
+
+// unmarshalDataPayload returns the payload of an SSH_FXP_DATA reply (data is what follows the id):
+// a length that exceeds the bytes present is an error, not a short delivery.
+func unmarshalDataPayload(data []byte) ([]byte, error) {
+	l, data, err := unmarshalUint32Safe(data)
+	if err != nil {
+		return nil, err
+	}
+	if uint64(l) > uint64(len(data)) {
+		return nil, errShortPacket
+	}
+	return data[:l], nil
 }
 
 type packetMarshaler interface {
